@@ -82,6 +82,6 @@ kani_unit("air_parsers", "winter-air", "air/src/proof/mod.rs", "kani/air_parsers
       "forall rows, cols in 1..=255 (all shapes the options / trace-info constructors admit) on an 8-byte input: never panics"),
     H("air_table_rows_bounded", ["C06", "C12"], ["Table::from_bytes", "Table::get_row", "Table::rows"], "2x2 table: rows are in bounds, iterator yields exactly 2 rows", bounded="2 x 2 elements"),
     H("air_queries_container_bounded", ["C12", "C03"], ["Queries::read_from", "Queries::write_into"], "container round trip, exact consumption", bounded="8 value bytes + 3 path bytes"),
-    H("air_commitments_parse_bounded", ["C06", "C03"], ["Commitments::read_from", "Commitments::parse"], "parse succeeds only if every byte is consumed (UnconsumedBytes otherwise)", bounded="96 or 100 commitment bytes, 32-byte digests", timeout=600),
+    H("air_commitments_parse_bounded", ["C06", "C03"], ["Commitments::read_from", "Commitments::parse"], "parse succeeds only if every byte is consumed (UnconsumedBytes otherwise)", bounded="95, 96 and 97 commitment bytes, 32-byte digests", timeout=900),
     H("air_parsers_canary_must_fail", ["C06", "C03", "C12"], [], "false claim: Table::from_bytes always fails", canary=True),
 ], modname="verif_kani_parsers")
